@@ -343,8 +343,9 @@ def write_evidence(ctx, mod, col, wall, nviol, extra=None):
         'violations': int(nviol),
         'darr_src': ctx.darr_src,
     }
-    os.makedirs(os.path.join(HOME, 'evidence'), exist_ok=True)
-    path = os.path.join(HOME, 'evidence', f'{ctx.prop}.json')
+    evdir = os.environ.get('VERIF_EVIDENCE_DIR') or os.path.join(HOME, 'evidence')
+    os.makedirs(evdir, exist_ok=True)
+    path = os.path.join(evdir, f'{ctx.prop}.json')
     tmp = path + '.tmp'
     with open(tmp, 'w') as f:
         json.dump(ev, f, indent=1, default=_default, sort_keys=True)
